@@ -5,5 +5,5 @@ EXTENDS Lexer, Json
 Export ==
    PrintT(<<"CASE", ToJson([src |-> src, listErr |-> ListError, list |-> ListValue, cont |-> Continues,
                             strErr |-> StringError, str |-> StringValue, text |-> TextUntilEol,
-                            ntok |-> NTok])>>)
+                            ntok |-> NTok, strOpt |-> StringIsOption])>>)
 =============================================================================
